@@ -171,6 +171,7 @@ func genParam() spec.Parameter {
 	case 1:
 		p.In = "query"
 		p.Type = "string"
+		p.Pattern = []string{"", "^a", "("}[verifChoose(3)] // "valid patterns" rule
 	case 2:
 		p.In = "body"
 		p.Schema = &spec.Schema{}
@@ -191,6 +192,9 @@ func refParamRules(path string, params []spec.Parameter) bool {
 		key := p.In + "#" + p.Name
 		if seen[key] {
 			ok = false // unique name + location
+		}
+		if p.Pattern == "(" {
+			ok = false // patterns must be valid regular expressions
 		}
 		seen[key] = true
 		switch p.In {
@@ -534,24 +538,28 @@ func HarnessC09VisitedKernel() {
 // final bookkeeping) with every dependency call stubbed, on a small reference-free document with
 // solver-chosen rule violations: a bad default (error), a bad example (warning), an undefined
 // required property (error), a read-only required property (warning).
-func HarnessC10WholeValidate() {
+// genSmallSpec: a one-definition, one-operation reference-free document with four independent,
+// solver-chosen rule violations.
+type smallSpecFlags struct{ badDefault, badExample, undefinedReq, roReq bool }
+
+func genSmallSpec() (*spec.Swagger, map[string]map[string]*spec.Operation, smallSpecFlags) {
 	sw := &spec.Swagger{}
 	def := spec.Schema{}
 	def.Type = spec.StringOrArray{"object"}
 	prop := schemaOfType("number")
 	prop.Maximum = ptrF(2)
-	badDefault, badExample, undefinedReq, roReq := verifBool(), verifBool(), verifBool(), verifBool()
-	if badDefault {
+	f := smallSpecFlags{verifBool(), verifBool(), verifBool(), verifBool()}
+	if f.badDefault {
 		prop.Default = 3.0
 	}
-	if badExample {
+	if f.badExample {
 		prop.Example = 3.0
 	}
-	if roReq {
+	if f.roReq {
 		prop.ReadOnly = true
 		def.Required = append(def.Required, "p")
 	}
-	if undefinedReq {
+	if f.undefinedReq {
 		def.Required = append(def.Required, "missing")
 	}
 	def.Properties = map[string]spec.Schema{"p": prop}
@@ -561,13 +569,21 @@ func HarnessC10WholeValidate() {
 	op.ID = "op"
 	op.Responses = &spec.Responses{}
 	ops := map[string]map[string]*spec.Operation{"GET": {"/p": op}}
-	run := func(cont bool) (verifOutcome, verifOutcome) {
-		s := newSpecHarnessValidator(sw, ops, cont, true)
-		s.schema = &spec.Schema{}
-		s.schema.Definitions = spec.Definitions{"parameter": spec.Schema{}}
-		errs, warns := s.Validate(s.spec)
-		return outcomeOfResult(errs), outcomeOfResult(warns)
-	}
+	return sw, ops, f
+}
+
+func runWholeValidate(sw *spec.Swagger, ops map[string]map[string]*spec.Operation, cont bool) (verifOutcome, verifOutcome) {
+	s := newSpecHarnessValidator(sw, ops, cont, true)
+	s.schema = &spec.Schema{}
+	s.schema.Definitions = spec.Definitions{"parameter": spec.Schema{}}
+	errs, warns := s.Validate(s.spec)
+	return outcomeOfResult(errs), outcomeOfResult(warns)
+}
+
+func HarnessC10WholeValidate() {
+	sw, ops, f := genSmallSpec()
+	badDefault, badExample, undefinedReq, roReq := f.badDefault, f.badExample, f.undefinedReq, f.roReq
+	run := func(cont bool) (verifOutcome, verifOutcome) { return runWholeValidate(sw, ops, cont) }
 	cont := verifBool()
 	errs, warns := run(cont)
 	verifObserve("valid", errs.valid)
@@ -655,5 +671,53 @@ func HarnessC09SimpleItems() {
 	verifAssert(gotD.valid == !bad, "rejected-items-default-is-an-error-and-only-then")
 	verifAssert(gotE.valid, "examples-never-make-errors")
 	verifAssert((len(gotE.warns) > 0) == bad, "rejected-items-example-is-a-warning-and-only-then")
+	verifReach("end")
+}
+
+// HarnessC04SpecValidate: whole-specification validation (stubbed dependencies) borrows validators and
+// results from the pools; with every pool handing out stale objects the outcome must be the same.
+func HarnessC04SpecValidate() {
+	sw, ops, _ := genSmallSpec()
+	cont := verifBool()
+	baseE, baseW := runWholeValidate(sw, ops, cont)
+	verifHavocPools(true)
+	havE, havW := runWholeValidate(sw, ops, cont)
+	verifHavocPools(false)
+	verifAssert(sameOutcome(baseE, havE), "spec-validation-outcome-independent-of-pool-contents")
+	verifAssert(sameOutcome(baseW, havW), "spec-validation-warnings-independent-of-pool-contents")
+	verifObserve("valid", baseE.valid)
+	verifReach("end")
+}
+
+// HarnessC05SpecParallel: two goroutines validate two distinct documents at the same time.
+func HarnessC05SpecParallel() {
+	sw1, ops1, f := genSmallSpec()
+	verifAssume(!f.badExample && !f.roReq)
+	sw2 := &spec.Swagger{}
+	d2 := spec.Schema{}
+	d2.Type = spec.StringOrArray{"object"}
+	if verifBool() {
+		d2.Required = []string{"nowhere"}
+	}
+	sw2.Definitions = spec.Definitions{"E": d2}
+	sw2.Paths = &spec.Paths{Paths: map[string]spec.PathItem{"/q": {}}}
+	solo1, _ := runWholeValidate(sw1, ops1, true)
+	solo2, _ := runWholeValidate(sw2, nil, true)
+	var o1 verifOutcome
+	s1 := newSpecHarnessValidator(sw1, ops1, true, true)
+	s1.schema = &spec.Schema{}
+	s1.schema.Definitions = spec.Definitions{"parameter": spec.Schema{}}
+	s2 := newSpecHarnessValidator(sw2, nil, true, true)
+	s2.schema = &spec.Schema{}
+	s2.schema.Definitions = spec.Definitions{"parameter": spec.Schema{}}
+	verifGo(func() {
+		e, _ := s1.Validate(s1.spec)
+		o1 = outcomeOfResult(e)
+	})
+	e2, _ := s2.Validate(s2.spec)
+	o2 := outcomeOfResult(e2)
+	verifJoin()
+	verifAssert(sameOutcome(o1, solo1), "goroutine-1-outcome-equals-solo")
+	verifAssert(sameOutcome(o2, solo2), "goroutine-2-outcome-equals-solo")
 	verifReach("end")
 }
